@@ -28,9 +28,11 @@ class Check:
         return self.deadline - time.time()
     def add(self, v, evalname):
         """queue a candidate violation (deduplicated by signature) for gating at the end"""
-        sig = v.signature()
+        # two candidates are the same only if they have the same signature *and* the same standing with respect to the recorded findings:
+        # a violation outside every finding's predicate must not be folded into one that a finding explains
+        sig = v.signature(); k = core.match_known(v, self.known); v.extra['_kid'] = k['id'] if k else None
         for pv, _ in self.pending:
-            if pv.signature() == sig:
+            if pv.signature() == sig and pv.extra.get('_kid') == v.extra['_kid']:
                 pv.extra['count'] = pv.extra.get('count', 1) + 1
                 return
         self.pending.append((v, evalname))
